@@ -286,6 +286,42 @@ def check_reexport(case):
     tb = mk_tb("TbRe")
     shared = d.Op()
     tr = d.Tran(tstop=1e-9)
+    if kind == "edit-in-place":
+        # exported, then the attributes edited IN PLACE (same objects, new field values), then exported again - alone and
+        # in a list: the second export is that of a Sim written with the new values
+        import hdl21 as h
+
+        def mk(v):
+            sw = d.SweepAnalysis(inner=[d.Tran(tstop=v["tstop"], name="t_in")], var="temp", sweep=d.PointSweep(v["points"]), name="sw")
+            return d.Sim(tb=tb, attrs=[d.Tran(tstop=v["tstop"], tstep=v["tstep"], name="tr"),
+                                      d.Dc(var="x", sweep=d.LinearSweep(0, v["stop"], 1), name="dc"), sw,
+                                      d.Include(path=v["path"]), d.Param(name="p", val=v["val"]),
+                                      d.Options(name="reltol", value=v["opt"]), d.Meas(analysis="tran", name="m", expr=v["expr"])])
+        v1 = dict(tstop=1e-9, tstep=None, stop=5, points=[1, 2], path="/tmp/a.sp", val=1, opt=1e-3, expr="max(v)")
+        v2 = dict(tstop=5e-9, tstep=1e-12, stop=7, points=[3], path="/tmp/b.sp", val=2.5, opt="gear", expr="min(v)")
+        for as_list in (False, True):
+            s = mk(v1)
+            first = hs.to_proto([s] if as_list else s)
+            tr_, dc_, sw_, inc_, par_, opt_, meas_ = s.attrs
+            # (field values as the constructors convert them: plain assignment does not re-validate)
+            ntr, ndc, nsw, ninc, npar, nopt, nmeas = mk(v2).attrs
+            tr_.tstop, tr_.tstep = ntr.tstop, ntr.tstep
+            dc_.sweep = ndc.sweep
+            sw_.sweep = nsw.sweep
+            sw_.inner[0].tstop = nsw.inner[0].tstop
+            inc_.path = ninc.path
+            par_.val = npar.val
+            opt_.value = nopt.value
+            meas_.expr = nmeas.expr
+            second = hs.to_proto([s] if as_list else s)
+            want = hs.to_proto([mk(v2)] if as_list else mk(v2))
+            ser = lambda x: [y.SerializeToString(deterministic=True) for y in (x if as_list else [x])]
+            if ser(second) != ser(want):
+                return ("reexport.stale", f"export after editing the attributes in place ({'list' if as_list else 'single'}) is "
+                                          f"not the export of a Sim written with the new values", w)
+            if ser(first) == ser(second):
+                return ("reexport.stale", "the edited Sim exports as before the edit", w)
+        return None
     if kind == "export-add-export":
         s = d.Sim(tb=tb, attrs=[shared, tr, d.Op(name="mine")])
         first = names_of(hs.to_proto(s))
@@ -387,7 +423,7 @@ def run(ctx):
                     check_reject, rule="testbenches without exactly one scalar port are rejected, also when the extra "
                                        "ports only appear through elaboration (bundle ports)", bound="8 programs",
                     key_of=repr)
-    ctx.run_bounded("re-export", [("reexport", k) for k in ("export-add-export", "shared-in-list", "shared-separately")],
+    ctx.run_bounded("re-export", [("reexport", k) for k in ("export-add-export", "shared-in-list", "shared-separately", "edit-in-place")],
                     check_reexport, rule="export, add unnamed analyses, export twice more; one unnamed analysis object "
                                          "shared by two Sims exported in one list / one by one: generated names distinct "
                                          "per SimInput, stable, and the designer's objects left unnamed",
